@@ -1031,7 +1031,7 @@ class Run:
                     if op[2] < len(other):
                         e = other[op[2]]
                         rs = list(e.event_results.values())
-                        if op[3] < len(rs):
+                        if -len(rs) <= op[3] < len(rs):
                             res['ev'] = self.tag_of(e)
                             try:
                                 await rs[op[3]]
